@@ -197,4 +197,16 @@ REG.add(Contract(F_CLI, '_do_tabulation', params=[('p', T.Obj('ArgParser')), ('a
     ensures=lambda v, old, res: [z3.BoolVal(False)], post_names=['always-leaves-through-sys.exit-or-an-error'],
     # what leaves: sys.exit, a configuration error (main() turns it into a usage error), or whatever escapes the tabulate action (an evaluation failing part-way: C17)
     on_raise=_do_exit, raises_when=lambda v, old, exc: [z3.BoolVal(exc.cls in ('SystemExit', 'ConfigurationException') or exc.origin == 'action_tabulate')],
+    raises_classes=['SystemExit', 'ConfigurationException', 'Exception', 'OSError'],      # (Exception / OSError: an evaluation failing while the table is written, the file that cannot be opened: C17)
     carries=['on_raise'], props=['C13']))
+
+# ---- main(): a configuration error becomes a usage error of the command line (C16: never a traceback for a malformed model)
+REG.add(Contract(F_CLI, '_setup_logging', params=[], ensures=lambda v, old, res: [], trusted=True, note='logging.basicConfig(level, format): no effect on the outcome', props=['C16']))
+REG.add(Contract(F_CLI, '_parse_command_line', params=[('cli_args', T.Any)], defaults={'cli_args': None}, result=T.Tuple(T.Obj('ArgParser'), T.Obj('CLIArgs')),
+    ensures=lambda v, old, res: _args_items_ok(res[1]), trusted=True, may_raise=lambda v: [('SystemExit', z3.Bool('usage_error_or_help'))],
+    note='argparse: the parser and the namespace of the command line (SystemExit for --help and for arguments argparse refuses); items of the form SECTION_NAME:KEY[=VALUE] (see _create_override_tuple)', props=['C16']))
+REG.add(Contract(F_CLI, 'main', params=[],
+    ensures=lambda v, old, res: [z3.BoolVal(False)], post_names=['always-leaves-through-sys.exit-or-an-error'],
+    # no ConfigurationException leaves main(): it is handed to ArgumentParser.error, which exits with status 2 and the message 'configuration error - ...'
+    raises_when=lambda v, old, exc: [z3.BoolVal(exc.cls in ('SystemExit', 'Exception', 'OSError'))], on_raise=lambda v, old: [],      # (the last two: evaluation failures while writing, C17 -- not configuration errors)
+    carries=['raises'], props=['C16']))
